@@ -13,7 +13,8 @@ use serde_json::{json, Value};
 
 pub const ALPHABET: [char; 18] = ['"', '\\', '~', '%', '(', ')', ';', '#', '\'', '\n', '\t', '\u{1}', '\u{7f}', 'é', '日', 'a', ' ', '*'];
 
-pub const CARRIERS: [&str; 35] = [
+pub const CARRIERS: [&str; 39] = [
+    "pool+long2", "xattr-match-value+long2", "printf-literal+long2", "name+long2",
     "pool+long", "xattr+long", "xattr-match-value+long", "printf-literal+long", "name+long",
     "name+framed", "iname+framed", "path+framed", "ipath+framed", "pool+framed", "xattr+framed", "xattr-match-attr+framed", "xattr-match-value+framed", "printf-literal+framed", "printf-octal+framed",
     "strftime-A+framed", "strftime-T+framed",
@@ -33,6 +34,16 @@ fn neutral(s: &str) -> String {
 
 /// Build the tree carrying `s` at `carrier`; None if the carrier cannot hold it.
 fn tree_for(carrier: &str, s: &str) -> Option<E> {
+    if let Some(b) = carrier.strip_suffix("+long2") {
+        // the carrier right after a literal ending in a backslash, followed by a long chain
+        let t = tree_for_base(b, s)?;
+        let mut e = E::or(E::T(Tst::Pool("fast\\".into())), t);
+        e = E::or(e, E::T(Tst::Xattr("my pool".into())));
+        for i in 0..60u32 {
+            e = E::or(e, E::T(Tst::Uid(Cmp::Eq, i)));
+        }
+        return Some(e);
+    }
     if let Some(b) = carrier.strip_suffix("+long") {
         // the carrier at the end of a long policy body (> 1000 bytes) that already contains literals
         // ending in a backslash, containing blanks and quotes
@@ -135,7 +146,7 @@ fn strings(x: &Sx, out: &mut Vec<String>) {
 /// carriers whose string lives in a test are also compiled next to an action that selects framed
 /// output (the two code generators are separate): carrier name with the suffix "+framed"
 fn base_carrier(carrier: &str) -> (&str, bool) {
-    let carrier = carrier.strip_suffix("+long").unwrap_or(carrier);
+    let carrier = carrier.strip_suffix("+long2").or(carrier.strip_suffix("+long")).unwrap_or(carrier);
     match carrier.strip_suffix("+framed") {
         Some(b) => (b, true),
         None => (carrier, false),
@@ -258,6 +269,20 @@ pub fn judge(carrier: &str, s: &str) -> Verdict {
         let got: String = obs.outs.first().map(|o| o.bytes.clone()).unwrap_or_default();
         if obs.outs.len() != n_expected || got != want {
             return Verdict::Fail(format!("{carrier}: literal text {s:?} is not printed verbatim: expected {want:?}, policy wrote {got:?}\nprogram:\n{p}"));
+        }
+    }
+    // every user string of the tree (not only the carrier's) must be a string literal of the program
+    // decoding to exactly that string (file names may instead be entries of the destination table)
+    for l in tree.leaves() {
+        let wanted: Vec<&String> = match l {
+            E::T(Tst::Name(x)) | E::T(Tst::IName(x)) | E::T(Tst::Path(x)) | E::T(Tst::IPath(x)) | E::T(Tst::Pool(x)) | E::T(Tst::Xattr(x)) => vec![x],
+            E::T(Tst::XattrMatch(a, b)) => vec![a, b],
+            _ => vec![],
+        };
+        for w in wanted {
+            if !st.iter().any(|lit| lit == w) {
+                return Verdict::Fail(format!("{carrier} with {s:?}: the user string {w:?} of the expression is not a string literal of the program\nprogram:\n{p}"));
+            }
         }
     }
     let nt = s.chars().any(hostile);
